@@ -1022,6 +1022,21 @@ pub fn lifecycle_audit<const N: usize>(pre: &Plain<N>, post: &Plain<N>, op: &OpI
                 ok_trans &= a.status != Status::New || z.status == Status::New;
                 ok_frame &= a.price == z.price;
             }
+        } else if i >= pre.n && i < post.n {
+            // an order created (and possibly placed) in this very step: dense id, clock-stamped arrival,
+            // end time set iff it is already terminal, status one the kind of order can have reached
+            let z = &post.e[i].order;
+            let market = is_market(z);
+            ok_frame &= z.order_id == i;
+            ok_times &= z.arr_time == post.t;
+            ok_times &= if terminal(z.status) { z.end_time == post.t } else { z.end_time == Nanos::MAX };
+            ok_trans &= match z.status {
+                Status::New => true,
+                Status::Active => !market,
+                Status::Filled => pre.trading,
+                Status::Cancelled => market && pre.trading,
+                Status::Rejected => market && !pre.trading,
+            };
         }
         i += 1;
     }
